@@ -334,6 +334,13 @@ Definition validateSchemaDocument (sd : sdoc) : option schema :=
               let q' := infer q (b "Query") in
               let m' := infer m (b "Mutation") in
               let s' := infer s (b "Subscription") in
+              (* a root operation type must be an object type *)
+              let root_is_object (r : option str) : bool :=
+                  match r with
+                  | Some n => match lookup n types with Some rd => dkind_eqb rd.(df_kind) KObject | None => true end
+                  | None => true
+                  end in
+              if negb (root_is_object q' && root_is_object m' && root_is_object s') then None else
               let types' :=
                   match q' with
                   | Some qn =>
